@@ -935,6 +935,13 @@ impl CommitEnv for LsmCommitEnv {
 			processed_batch.add_record(entry.kind, entry.key.clone(), encoded_value, timestamp)?;
 		}
 
+		// A batch that cannot fit even an empty memtable would be logged and then
+		// fail to apply half-way: the commit would report an error while part of it
+		// became visible, and the logged record could not be replayed on reopen.
+		if !MemTable::fits_when_empty(&processed_batch, self.core.opts.max_memtable_size) {
+			return Err(Error::BatchTooLarge);
+		}
+
 		#[cfg(surrealkv_verif)]
 		if crate::verif::failpoint("commit.log_append", &[("seq", seq_num)]) {
 			return Err(Error::Other("verif: injected commit log failure".to_string()));
@@ -959,30 +966,37 @@ impl CommitEnv for LsmCommitEnv {
 			return Err(Error::Other("verif: injected apply failure".to_string()));
 		}
 
-		// Try to add to current memtable
-		let result = {
-			let active_memtable = self.core.active_memtable.read()?;
-			active_memtable.add(batch)
-		};
-
-		match result {
-			Ok(()) => Ok(()),
-			Err(Error::ArenaFull) => {
-				// Arena is full - rotate memtable and retry
-				log::debug!("apply: arena full, rotating memtable");
-
-				self.core.rotate_memtable()?;
-
-				// Schedule background flush
-				if let Some(ref task_manager) = self.task_manager {
-					task_manager.wake_up_memtable();
-				}
-
-				// Retry on new memtable - must succeed
+		loop {
+			// Try to add to current memtable
+			let (result, tried) = {
 				let active_memtable = self.core.active_memtable.read()?;
-				active_memtable.add(batch)
+				(active_memtable.add(batch), Arc::clone(&active_memtable))
+			};
+
+			match result {
+				Ok(()) => return Ok(()),
+				Err(Error::ArenaFull) => {
+					// Arena is full - rotate memtable and retry
+					log::debug!("apply: arena full, rotating memtable");
+
+					self.core.rotate_memtable()?;
+					if Arc::ptr_eq(&tried, &*self.core.active_memtable.read()?) {
+						// Nothing was rotated away (the memtable counts as empty):
+						// retrying cannot make progress.
+						return Err(Error::ArenaFull);
+					}
+
+					// Schedule background flush
+					if let Some(ref task_manager) = self.task_manager {
+						task_manager.wake_up_memtable();
+					}
+
+					// Retry on the new memtable. `write` made sure the batch fits an
+					// empty one; concurrent committers may have filled the fresh
+					// memtable before we got to it, in which case rotate again.
+				}
+				Err(e) => return Err(e),
 			}
-			Err(e) => Err(e),
 		}
 	}
 
